@@ -4,7 +4,7 @@
    [bad] is the abstract verdict of urlsplit's ipaddress / NFKC checks (never consulted on the
    scope texts the library produces itself, hence universally quantified). *)
 From Coq Require Import List NArith Bool.
-From SDC Require Import Location.Quote Location.Loc Location.Proofs Location.Gen_Loc.
+From SDC Require Import Location.Quote Location.Loc Location.Proofs Location.Prov Location.Prov_Proofs Location.Gen_Loc.
 Import ListNotations.
 Open Scope N_scope.
 
@@ -91,6 +91,65 @@ Theorem C16_filter_spec : forall K split self svs,
   filter_inside K true split self svs = Ret (filter (service_inside K split self) svs).
 Proof. exact filter_spec. Qed.
 Print Assumptions C16_filter_spec.
+
+(* a service that publishes several scopes (several pm:Identification, foreign scopes, malformed ones) is
+   inside a location iff SOME scope is, at whatever position; it is outside iff every scope is *)
+Theorem C16_service_inside_iff_some_scope : forall K split self scopes,
+  service_matches K true split self (Some scopes) = Ret true <->
+  exists s, In s scopes /\ scope_matches K true split self s = Ret true.
+Proof. exact service_any. Qed.
+Print Assumptions C16_service_inside_iff_some_scope.
+
+Theorem C16_service_outside_iff_every_scope : forall K split self scopes,
+  service_matches K true split self (Some scopes) = Ret false <->
+  forall s, In s scopes -> scope_matches K true split self s = Ret false.
+Proof. exact service_none. Qed.
+Print Assumptions C16_service_outside_iff_every_scope.
+
+(* provider side, end to end: update_from_sdc_location on a state in ANY initial condition (LocationDetail
+   present or None, any identifications) followed by mk_scopes publishes exactly the scope of the theorems
+   above, the LocationDetail read in url_elements order is the location put in (named-field copy) ... *)
+Theorem C16_provider_path : forall st l st', length (l_vals l) = 6%nat ->
+  update_from_loc loc_consts st l = Ret st' ->
+  exists s, published_of loc_consts l = Some s /\ mk_loc_scopes loc_consts st' = Ret [s] /\
+            exists d, p_detail st' = Some d /\ detail_vals d = l_vals l.
+Proof. exact (provider_path loc_consts). Qed.
+Print Assumptions C16_provider_path.
+
+Theorem C16_provider_defined : forall st l v,
+  wf_loc loc_consts l -> In (Some v) (l_vals l) -> v <> [] -> exists st', update_from_loc loc_consts st l = Ret st'.
+Proof. exact (provider_defined loc_consts). Qed.
+Print Assumptions C16_provider_defined.
+
+(* ... the published scope read back by from_scope_string is the location put in, all six elements + root *)
+Theorem C16_provider_readback : forall bad st l st',
+  wf_loc loc_consts l -> nonempty_fields l -> update_from_loc loc_consts st l = Ret st' ->
+  exists s, mk_loc_scopes loc_consts st' = Ret [s] /\
+            from_scope loc_consts (urlsplit bad) s = inl (mkLoc (c_ident_root loc_consts) (l_vals l)).
+Proof. exact (provider_readback loc_consts C16_consts_ok). Qed.
+Print Assumptions C16_provider_readback.
+
+(* ... with additional identifications before / after the fallback identifier and any further scopes
+   (MDS type, purpose) the Service is found inside the location and every enclosing one *)
+Theorem C16_provider_service_inside : forall bad st l st' pre post others l',
+  wf_loc loc_consts l -> nonempty_fields l -> update_from_loc loc_consts st l = Ret st' ->
+  l_root l' = c_ident_root loc_consts -> Forall2 elem_enclosed (l_vals l') (l_vals l) ->
+  exists scopes,
+    mk_loc_scopes loc_consts (mkPState (pre ++ p_idents st' ++ post) (p_detail st')) = Ret scopes /\
+    service_matches loc_consts true (urlsplit bad) l' (Some (scopes ++ others)) = Ret true.
+Proof. exact (provider_service_inside loc_consts C16_consts_ok). Qed.
+Print Assumptions C16_provider_service_inside.
+
+(* ... and inside no location that specifies an element differently (the other scopes being no location
+   scopes inside l') *)
+Theorem C16_provider_service_not_inside : forall bad st l st' others l' i v x,
+  wf_loc loc_consts l -> update_from_loc loc_consts st l = Ret st' ->
+  nth_error (l_vals l') i = Some (Some v) -> nth_error (l_vals l) i = Some x -> x <> Some v ->
+  Forall (fun o => scope_inside loc_consts (urlsplit bad) l' o = false) others ->
+  exists s, mk_loc_scopes loc_consts st' = Ret [s] /\
+    service_matches loc_consts true (urlsplit bad) l' (Some ([s] ++ others)) = Ret false.
+Proof. exact (provider_service_not_inside loc_consts C16_consts_ok). Qed.
+Print Assumptions C16_provider_service_not_inside.
 
 (* the code as it is in /repo today (fixed = false) does raise: a scope with four path segments *)
 Definition c16_witness_scope : bytes :=   (* "sdc.ctxt.loc:/a/b/c" *)
